@@ -47,6 +47,10 @@ var (
 	defaultCalleeRe    = regexp.MustCompile(`\([^()]*\)[ \t]*default\b`)
 	plainCalleeRe      = regexp.MustCompile(`^(?:[A-Za-z_][A-Za-z0-9_]*|\([ \t]*[A-Za-z_][A-Za-z0-9_]*[ \t]*\)|render[ \t].*)?$`)
 	defaultTailRe      = regexp.MustCompile(`[ \t]*\bdefault\b[^}%]*`)
+	rangeAssignRe      = regexp.MustCompile(`\bfor\b([ \t\n]*)([^;%={}]*[^;%={}:!<>+\-*/&|^ \t\n])([ \t\n]*=[ \t\n]*range\b)`)
+	identOperandRe     = regexp.MustCompile(`^[( \t\n]*[A-Za-z_][A-Za-z0-9_]*[) \t\n]*$`)
+	paramListRe        = regexp.MustCompile(`\b((?:func|macro)\b(?:[ \t]*[A-Za-z_][A-Za-z0-9_]*)?[ \t]*\()([^()]*)\)`)
+	unnamedParamRe     = regexp.MustCompile(`^(?:\.\.\.)?[\[\]*.A-Za-z_0-9]+$`)
 	elseRe             = regexp.MustCompile(`\{%[ \t\n]*else[ \t\n]*%\}|\belse\b`)
 )
 
@@ -123,6 +127,65 @@ var findingClasses = []findingClass{
 		}
 		return defaultTailRe.ReplaceAll(src, nil), true
 	}},
+	{id: "for-range-assign-non-identifier-panics", neutral: func(src []byte) ([]byte, bool) {
+		// `for x, y = range e` (assignment form) where an operand on the left is not an identifier (a parenthesised
+		// identifier is unwrapped by the parser); neutralised by writing `_` for every such operand
+		changed := false
+		out := rangeAssignRe.ReplaceAllFunc(src, func(m []byte) []byte {
+			g := rangeAssignRe.FindSubmatch(m)
+			ops := splitTopLevel(string(g[2]))
+			for i, op := range ops {
+				if !identOperandRe.MatchString(op) {
+					ops[i] = "_"
+					changed = true
+				}
+			}
+			return []byte("for" + string(g[1]) + strings.Join(ops, ", ") + string(g[3]))
+		})
+		return out, changed
+	}},
+	{id: "for-range-assign-non-local-variable-panics", neutral: func(src []byte) ([]byte, bool) {
+		// `for x, y = range e` (assignment form) with an identifier operand: the emitter finds only a local variable held in
+		// a register; neutralised by writing `_` for every identifier operand
+		changed := false
+		out := rangeAssignRe.ReplaceAllFunc(src, func(m []byte) []byte {
+			g := rangeAssignRe.FindSubmatch(m)
+			ops := splitTopLevel(string(g[2]))
+			for i, op := range ops {
+				if identOperandRe.MatchString(op) && strings.Trim(op, "() \t\n") != "_" {
+					ops[i] = "_"
+					changed = true
+				}
+			}
+			return []byte("for" + string(g[1]) + strings.Join(ops, ", ") + string(g[3]))
+		})
+		return out, changed
+	}},
+	{id: "unnamed-parameter-after-native-variable-panics", neutral: func(src []byte) ([]byte, bool) {
+		// prediction: a function literal, function or macro declaration whose parameters are all unnamed (`func(int)`,
+		// `macro A(int, string)`); neutralised by naming every such parameter `_` (which the emitter handles). The other
+		// half of the trigger (a native variable of the Globals used inside some function body of the same template) is
+		// left as it is: the counterfactual run shows that the unnamed parameter is what makes the case fail
+		changed := false
+		out := paramListRe.ReplaceAllFunc(src, func(m []byte) []byte {
+			g := paramListRe.FindSubmatch(m)
+			if len(strings.TrimSpace(string(g[2]))) == 0 {
+				return m
+			}
+			ps := strings.Split(string(g[2]), ",")
+			for _, p := range ps {
+				if !unnamedParamRe.MatchString(strings.TrimSpace(p)) {
+					return m
+				}
+			}
+			for i, p := range ps {
+				ps[i] = "_ " + strings.TrimSpace(p)
+			}
+			changed = true
+			return []byte(string(g[1]) + strings.Join(ps, ", ") + ")")
+		})
+		return out, changed
+	}},
 	{id: "duplicate-else-panics", neutral: func(src []byte) ([]byte, bool) {
 		locs := elseRe.FindAllIndex(src, -1)
 		if len(locs) < 2 {
@@ -131,6 +194,26 @@ var findingClasses = []findingClass{
 		l := locs[len(locs)-1]
 		return append(append([]byte(nil), src[:l[0]]...), src[l[1]:]...), true
 	}},
+}
+
+// splitTopLevel splits s at the commas that are not inside brackets or parentheses.
+func splitTopLevel(s string) []string {
+	var out []string
+	depth, start := 0, 0
+	for i, c := range s {
+		switch c {
+		case '(', '[':
+			depth++
+		case ')', ']':
+			depth--
+		case ',':
+			if depth == 0 {
+				out = append(out, strings.TrimSpace(s[start:i]))
+				start = i + 1
+			}
+		}
+	}
+	return append(out, strings.TrimSpace(s[start:]))
 }
 
 // a return statement in a template source that has no macro and no function at all
